@@ -39,6 +39,17 @@ var c06ObserveProg ast.Node
 var c06ObserveGlobal *object.Env
 var c06ObserveSym object.SymHash
 
+// c06InitObserve must run before the FIRST fingerprint of a process is taken (a fingerprint
+// taken without the observation part never equals one taken with it).
+func c06InitObserve(it *harness.Interp) {
+	if c06ObserveProg != nil {
+		return
+	}
+	if prog, err := harness.Parse("[obsv__.len, obsv__[0], obsv__[1], obsv__[-1], obsv__[1:3], obsv__.S]"); err == nil {
+		c06ObserveGlobal, c06ObserveSym, c06ObserveProg = it.Global, object.GetSymHash("obsv__"), prog
+	}
+}
+
 func c06Observe(o object.PanObject, depth int) string {
 	if c06ObserveProg == nil || depth > 1 {
 		return ""
@@ -249,11 +260,7 @@ func (c *c06Check) Init(tier string) {
 // initTables discovers the built-in prototypes and their property names by reflection.
 func (c *c06Check) initTables(it *harness.Interp) {
 	c.it = it
-	if c06ObserveProg == nil {
-		if prog, err := harness.Parse("[obsv__.len, obsv__[0], obsv__[1], obsv__[-1], obsv__[1:3], obsv__.S]"); err == nil {
-			c06ObserveGlobal, c06ObserveSym, c06ObserveProg = it.Global, object.GetSymHash("obsv__"), prog
-		}
-	}
+	c06InitObserve(it)
 	c.builtins = map[object.PanObject]string{}
 	c.propsOf = map[object.PanObject][]string{}
 	hs := make([]uint64, 0, len(c.it.Global.Store))
